@@ -485,4 +485,66 @@ PROPS = {
                         "rect pred lines are judged Go-vs-Go (Rect.ContainsCell / IntersectsCell against Rect.ContainsPoint on the cell's "
                         "sample points), not exactly"],
     },
+    "C10": {
+    # (generator, quick n, thorough n); measured 48000 lines in 46 s on 16 cores (generator + oracle);
+    # c10long = long-edge loops only (RectBounder latitude budget, finding F1): 32000 lines in 40 s
+    "generators": [("c10", 36000, 500000), ("c10long", 6000, 400000)],
+    "modules": ["S2.Bounds", "S2.Interval", "S2.Contain", "S2.Pred", "S2.Exact", "S2.STUV", "S2.F64", "S2.F64Extra", "S2.CellID"],
+    "rule": "every run first replays the minimal inputs of the repaired findings F1-F6 (c10Regression). regions: loops (star loops about a pole / cube corner / face-edge midpoint / anywhere, 3..300 vertices, radius 1e-7 .. hemisphere, "
+            "counter-clockwise or clockwise = larger than a hemisphere; an edge through / within 0, denormal, 1e-16 .. 1e-3 of a pole incl. LONG "
+            "polar edges whose endpoints are nearly antipodal; an edge spanning pi -+ tiny of longitude; nearly antipodal adjacent vertices; thin strips "
+            "along a parallel spanning > 180 degrees; loops across the antimeridian with a vertex exactly on it; small loops around / next to a pole; "
+            "lat-lng quadrilaterals; loops winding around a parallel (exactly one pole inside); cells of every level at poles / cube corners as loops; "
+            "the empty and full loops; each also after Invert), polygons (1-3 nested loops + optional second shell), polylines (incl. chains lying "
+            "exactly in the plane y = 0 through the poles or in the equator plane, which have exact on-edge points), caps (radius 0, tiny, pi/2 -+ tiny, "
+            "pi - tiny, boundary through a pole, any chord length 0..4; centre anywhere / at a pole / next to a pole), cells and cell unions (every "
+            "level; faces; at poles and cube corners), nested loop pairs A contains B (B hugging A from inside by 1e-1 .. 1e-15, diamond in square, "
+            "small inner loop; nesting re-checked exactly by the oracle). probes: every vertex and its float neighbours; for every edge the point of "
+            "extremal latitude and the crossing of the +-pi meridian computed with 300-bit arithmetic, then float neighbours (single coordinates +-1..3 "
+            "ulps, steps of k*1.2e-16 along and k*0.6e-16 across the edge); edge midpoints; the poles and neighbours; interior points; antipode. "
+            "Membership of a probe is decided exactly by the oracle (crossing parity with the exact orientation predicate; exact collinearity and "
+            "betweenness for polylines; exact chord comparison for caps; exact uv-rectangle test for cells); only probes that ARE members are judged: "
+            "clause rect (Rect.ContainsLatLng of the library's own LatLngFromPoint, float comparisons as in the code), cap (Cap.ContainsPoint as computed), "
+            "capexact (exact chord comparison, slack 4 ulps), cells (leaf cell of the probe inside CellUnionBound), caprect (Cap.RectBound), subregion "
+            "(ExpandForSubregions(A.RectBound) contains B.RectBound for exactly nested A, B, A without pole). hull: ConvexHullQuery on point sets (single "
+            "point, two points close / far / nearly and exactly antipodal, duplicates, exactly collinear points in a coordinate plane, all points in a cap "
+            "of radius 1e-7 or 3e-15, points spread over more than a hemisphere, clouds in caps up to a hemisphere, points around a pole / across the "
+            "antimeridian), polylines, loops (incl. > hemisphere, empty, full), polygons; judge: every cyclic triple of the hull is counter-clockwise by "
+            "the exact predicate, hull vertices pairwise distinct, every input point is a hull vertex or has exact determinant >= 0 against every hull edge. "
+            "model = implementation (verdict diff): Loop.initBound pole logic and Invert from the RectBounder result and the exact pole containment, "
+            "ExpandForSubregions bit-exactly, polygon bound = union of the non-hole loop bounds, CellUnion.RectBound = union of the cell bounds, "
+            "Cap.ContainsPoint bit-exactly, the whole ConvexHull (model on the exact orientation, with the library's origin) whenever the sort comparator "
+            "is a strict total order on the input. non-trivial = a line with at least one probe / input point; distinct = distinct (op, arguments)",
+    "nontrivial": lambda l: not (" - = " in l or l.startswith("hull P - ")),
+    "trusted_base": [
+        "the harness passes the library's own LatLngFromPoint(p) (math.Atan2) for every probe: the property is about the COMPUTED latitude / longitude; libm is not modelled",
+        "abstract in the model (S2.Bounds.EdgeBounder): the numeric heart of RectBounder.AddPoint (cross product, atan2 / asin latitude extremum, the constants 1.91346e-15, "
+        "6.06638e-16, 6.83174e-31, 3 eps, eps); theorems assume EdgeSound (each per-edge rectangle contains the computed lat-lng of every point of its edge); searched by the oracle",
+        "LngExpandKeeps 0 / pi (s1.Interval.Expanded keeps every point) is a hypothesis of the RectBound / ExpandForSubregions theorems: true for exact arithmetic "
+        "(S2Proofs.C19.s1_expanded_contains_exact_partial), false for float64 in general (C19); judged on every line (clause rect, sub-not-superset)",
+        "geometric hypotheses of initBound_contains / loop_bound_contains (hN, hS: no pole inside => extreme latitude attained on the boundary; hL: no pole inside => interior "
+        "longitudes within every arc covering the boundary longitudes; hF: only the south pole inside => computed longitude bound is full) are assumed, exercised by the oracle "
+        "(loops containing one / both / no pole, model initBound = implementation on every bndloop line)",
+        "SignLaws (cyclic symmetry, antisymmetry, non-degeneracy on distinct points, three instances t1 t2 t3 of Knuth's CC-system transitivity axiom for points sorted around a "
+        "far origin) are assumed of RobustSign; proved for integer points of the plane in general position (signLaws_integer_plane); that sort.Slice around origin yields an input "
+        "satisfying them is the statement convexHull_sorted_laws_statement (not proved)",
+        "Oracle.C04.fastGeo (exact integer determinant, falling back to Pred.exactDecision on zero) as exact orientation predicate, as in C04",
+        "export hooks used (all pre-existing): VerifLoopDepth, VerifCellIDFromPoint, VerifFaceUVToXYZ, VerifLoopBruteForceContainsPoint",
+    ],
+    "assumptions": [
+        "loops are valid (unit vertices, no duplicate vertices, no antipodal neighbours, no self-crossing: checked by the generator with the library predicates)",
+        "probes are unit length within the library tolerance (IsUnit); no NaN / infinite coordinates",
+        "bndsub: the sub-region guarantee is judged only when the outer loop contains neither pole (documented restriction)",
+        "polyline points: only probes EXACTLY on an edge (integer determinant 0 and between the endpoints) or equal to a vertex count as contained",
+    ],
+    "partial": ["edgeBound_sufficient_statement, expandForSubregions_covers_subloops_statement, capBound_conservative_statement, convexHull_sorted_laws_statement are "
+                "`def ... : Prop` (numeric sufficiency of the padding constants, cap / cell bounds, and the link sort -> SignLaws): searched by the oracle, not proved; "
+                "the search found six defects (F1 RectBounder latitude budget for nearly antipodal endpoints, F2 cap bounds without rounding slack, "
+                "F3 Cap.RectBound without padding, F4/F5 ConvexHull on two nearly identical points, F6 ConvexHull on exactly hemispherical input), all repaired "
+                "(docs/fixes/fix_C10_F*.diff); bndcu additionally needs the Cap.AddCap repair of package c19 (fix_capAddCap.diff)"],
+    "level_text": "proof (Lean 4): 31 theorems — composition of conservative per-edge bounds through RectBounder / expanded / PolarClosure, Loop.initBound pole logic, Invert, "
+                  "polygon bound, ExpandForSubregions never loses a point (over an abstract linearly ordered carrier, reusing the C19 algebra); Andrew's monotone chain: "
+                  "subsequence, every consecutive triple counter-clockwise, every input point a hull vertex or strictly left of every hull edge (under SignLaws)",
+    "level_note": "partial: all float error budgets (padding constants, cap / cell bounds, sub-region expansion) are searched, not proved",
+    },
 }
